@@ -13,28 +13,27 @@ import ast, hashlib, json, os, re
 import vlib
 
 TRUSTED = [
-    "Coq 8.16.1 kernel + vm_compute (witness evaluation; the sweeps are cross-checks, the lowering theorems are unbounded inductions)",
+    "Coq 8.16.1 kernel + vm_compute (witness evaluation, one small sweep for mono_closed; the lowering theorems are unbounded inductions)",
+    "tools/extractors/c17.py transcribes MAX_MONO_ROUNDS from air/src/mono.rs",
     "Model/AirLower.v is a hand model of air/src/lower.rs restricted to what decides block structure "
     "(block-id allocation, seal/pending/fixup/alias/finalize, statement emission, name table, lower_function "
     "save/restore); tied on every run by hx_air (canonical block lists must be equal)",
-    "Model/Mono.v is a hand model of air/src/mono.rs (requests, instantiate, substitution, StructInit renaming, "
-    "call-site rewriting); the HashMap iteration order behind `entries.first()` is a Section variable `pick` "
-    "(assumed only to return an element of the list); tied on every run on observations that do not depend on the order",
+    "Model/Mono.v is a hand model of air/src/mono.rs (requests, instantiate rounds, substitution, per-call-site "
+    "rewriting); tied on every run (instances, types, exact callee of every call, StructInit names)",
     "hx_air's typed-AST -> skeleton and AirProgram -> Mono-model translations (structural maps; an error shows up as a tie mismatch)",
     "the validator in hx_air (mod validate) is the statement of the property on the real data structure; "
     "'argument types at a call' are the AIR operand types (constants by literal kind, locals by declaration)",
     "statement contents (operands, operators, constants) are not modelled: the theorems carry the CFG/mono structure, "
     "the per-local and per-struct clauses of lower() are checked only by the validator on generated programs",
-    "theorems about branch targets carry the guard breaks_scoped (break/continue inside a loop of the same function); "
-    "guarded mono_closed is proved only on a bounded family (6175 programs x 3 orders)",
+    "mono_closed: CFG preservation and exactness of redirected calls are unbounded; 'no type parameter left / structs exist / "
+    "every generic call redirected' is proved on a bounded family (9724 programs) and explored by the validator",
 ]
 
 IMPORT_SK = "From Aelys Require Import Model.AirLower.\nLocal Open Scope N_scope."
 IMPORT_MO = "From Aelys Require Import Model.AirLower Model.Mono.\nLocal Open Scope N_scope."
 
-REFUTED = ["lower_wf (C17_lower_wf_refuted, C17_dangling_merge_refuted, C17_pending_overwritten_refuted)",
-           "mono_closed (C17_first_instance_refuted, C17_structinit_dangling_refuted, "
-           "C17_generic_struct_field_refuted, C17_generic_callee_refuted)"]
+REFUTED = ["mono_closed (C17_mono_closed_refuted, C17_generic_struct_field_refuted: generic structs are never "
+           "instantiated, KF-C17-5 open); lower_wf is no longer refuted: it is proved without guard after the repairs"]
 
 # validator kind -> signature (dangling targets are refined with the model's ghost fields)
 KIND_SIG = {
@@ -82,9 +81,10 @@ def run(ctx):
     ctx.cov["refuted_lemmas"] = REFUTED
     ctx.assumptions = [
         "the skeleton and mono models are the code: checked by the two contract ties below on every generated program",
-        "programs are drawn from the generator described in input_distribution (break/continue only inside a loop of the same function)",
+        "programs are drawn from the generator described in input_distribution (break/continue only inside a loop of the same "
+        "function, because the rest of the toolchain rejects the others; the lowering theorem itself needs no such guard)",
     ]
-    proved = ctx.prove("C17")
+    proved = ctx.prove("C17", extracted=["MonoConsts"])
     if ctx.tier == "thorough" and proved:
         ctx.coqchk("C17")
     ok, out = vlib.coq_make(["Base/CaseCheck.vo", "Model/AirLower.vo", "Model/Mono.vo"])
@@ -171,30 +171,11 @@ def analyse(ctx, out):
             for (c, m, _, o), r in zip(bad, mres)]
 
     # ---- (a) direct oracle: classify the validator's findings by root cause
-    sk_q = {(c, m): q for (c, m, q, _) in sk}
-    need = sorted({(v["case"], v["mode"]) for v in vs if v["kind"] == "dangling-target"})
-    lost = {}
-    if need:
-        res, lerr = vlib.coq_eval_terms("c17lost", IMPORT_SK, [f"lost_obs ({sk_q[k]})" for k in need])
-        for k, r in zip(need, res):
-            try:
-                lost[k] = parse_coq_list(r)
-            except Exception:
-                lost[k] = None
     by_sig = {}
     for v in vs:
         if v["kind"] == "dangling-target":
-            k = (v["case"], v["mode"])
-            lo = lost.get(k)
-            t = int(v["detail"])
-            if k in sk_bad or lo is None or not (0 <= v["fn"] < len(lo)):
-                sig = "lower:dangling-target:unclassified-tie-broken"
-            elif t in lo[v["fn"]][0]:
-                sig = "lower:dangling-target:open-merge-at-function-end"
-            elif t in lo[v["fn"]][1]:
-                sig = "lower:dangling-target:pending-merge-overwritten"
-            else:
-                sig = "lower:dangling-target:unexplained"
+            # no known class any more (KF-C17-1/2 repaired): every dangling target is a violation
+            sig = "lower:dangling-target"
         else:
             sig = KIND_SIG.get(v["kind"], "air:" + v["kind"])
         by_sig.setdefault(sig, []).append(v)
